@@ -71,22 +71,20 @@ def compute_dense_tile_occupancy(
 ):
     result = 1
     for index_expr in projection_expr.values():
-        subs = {
-            s: rank_variable_shapes[s.name] - 1
-            for s in index_expr.free_symbols
-            if s.name in rank_variable_shapes
-        }
-        result = result * ((index_expr.xreplace(subs) if subs else index_expr) + 1)
+        result = result * compute_rank_occupancy(index_expr, rank_variable_shapes)
     return result
 
 
 def compute_rank_occupancy(projection_expr: sympy.Expr, rank_variable_shapes: dict):
-    subs = {
-        s: rank_variable_shapes[s.name] - 1
-        for s in projection_expr.free_symbols
-        if s.name in rank_variable_shapes
-    }
-    return (projection_expr.xreplace(subs) if subs else projection_expr) + 1
+    """Extent (max - min + 1) of an affine projection over a tile: the constant term
+    shifts the image and the sign of a coefficient mirrors it; neither changes the extent."""
+    extent = 1
+    for s in projection_expr.free_symbols:
+        if s.name in rank_variable_shapes:
+            extent = extent + abs(projection_expr.coeff(s)) * (
+                rank_variable_shapes[s.name] - 1
+            )
+    return extent
 
 
 def get_stride_and_halo_of_einsum(
